@@ -7,7 +7,7 @@ from .frontend import AnalysisBroken, fmt_loc
 from .ir import strip_casts, call_target
 from .e1static import is_charptr_type
 from .abnf import symbol_partition, NSYM
-from .e1 import (Runner, St, Alphabet, Imprecise, NeedSplit, Finding, TOP, NULL, END, SAFE, MEM, D)
+from .e1 import (WIDE_REPS, Runner, St, Alphabet, Imprecise, NeedSplit, Finding, TOP, NULL, END, SAFE, MEM, D)
 
 URI = ('G', 'URI')
 STATE = ('G', 'STATE')
@@ -171,24 +171,25 @@ def seed_sets(irp, funcs):
 
 
 def initial_alphabet(suf, base_class_of, value_sets):
-    tmp = Alphabet([set(range(NSYM))], suf)
+    allsyms = Alphabet.all_symbols(suf)
+    tmp = Alphabet([set(allsyms)], suf)
     symsets = []
     for g in value_sets:
         s = set()
         for v in g:
             sym = tmp.sym_of_value(v)
-            if sym is not None and sym != 256:
+            if sym is not None:
                 s.add(sym)
         if s:
             symsets.append(frozenset(s))
     byc = {}
-    for sym, c in enumerate(base_class_of):
-        byc.setdefault(c, set()).add(sym)
-    class_of, n = symbol_partition(list(map(frozenset, byc.values())) + symsets)
-    cls = [set() for _ in range(n)]
-    for sym, c in enumerate(class_of):
-        cls[c].add(sym)
-    return Alphabet(cls, suf)
+    for sym in allsyms:
+        byc.setdefault(base_class_of[min(sym, 256)], set()).add(sym)
+    sets = list(map(frozenset, byc.values())) + symsets
+    sig = {}
+    for sym in allsyms:
+        sig.setdefault(tuple(sym in x for x in sets), set()).add(sym)
+    return Alphabet(list(sig.values()), suf)
 
 
 # ------------------------------------------------------------------ exploration
@@ -238,6 +239,7 @@ def explore(ctx, suf, entry, setup, monitor, base_class_of, nul=False, max_state
             res.wall = time.time() - t0
             res.functions = funcs
             res.machine = mach
+            res.sampled = mach.sampled
             return res
         except NeedSplit as ns:
             restarts += 1
@@ -311,7 +313,7 @@ def witness(res, node, al):
             notes.append('allocation %s %s' % (lab[1], 'succeeds' if lab[2] else 'FAILS'))
         elif lab[0] == 'choice':
             notes.append('call returns %r' % (lab[1],))
-    text = ''.join(chr(s) if 32 <= s < 127 else ('\\x%02x' % s if s < 256 else '\\u0100') for s in syms)
+    text = ''.join(chr(s) if 32 <= s < 127 else ('\\x%02x' % s if s < 256 else '\\u{%x}' % (WIDE_REPS[s - 256] & 0xffffffff)) for s in syms)
     return text, [n for n in notes if 'FAILS' in n or 'returns' in n]
 
 
